@@ -29,8 +29,11 @@ type packetGenerator struct {
 func (g *packetGenerator) Packets(ctx context.Context, in <-chan *Request) <-chan *packet.BufferData {
 	out := make(chan *packet.BufferData, 100)
 	go func() {
+		defer packet.VfGate("f.done", out, nil)
 		defer close(out)
+		defer packet.VfGate("f.exit", out, nil)
 		for {
+			packet.VfGate("f.recv", out, nil)
 			select {
 			case <-ctx.Done():
 				return
@@ -38,11 +41,13 @@ func (g *packetGenerator) Packets(ctx context.Context, in <-chan *Request) <-cha
 				if !ok {
 					return
 				}
+				packet.VfGate("f.got", out, r)
 				if r.Err != nil {
 					writeBufToChan(ctx, out, &packet.BufferData{Err: r.Err})
 					continue
 				}
 				buf := packet.NewSerializeBuffer()
+				packet.VfGate("f.filling", out, buf)
 				if err := g.filler.Fill(buf, r); err != nil {
 					writeBufToChan(ctx, out, &packet.BufferData{Err: err})
 					continue
@@ -55,6 +60,7 @@ func (g *packetGenerator) Packets(ctx context.Context, in <-chan *Request) <-cha
 }
 
 func writeBufToChan(ctx context.Context, out chan *packet.BufferData, buf *packet.BufferData) {
+	packet.VfGate("f.send", out, buf)
 	select {
 	case <-ctx.Done():
 		return
@@ -87,8 +93,10 @@ func MergeBufferDataChan(ctx context.Context, channels ...<-chan *packet.BufferD
 
 	out := make(chan *packet.BufferData, len(channels)*100)
 	multiplex := func(c <-chan *packet.BufferData) {
+		defer packet.VfGate("m.exit", c, nil)
 		defer wg.Done()
 		for {
+			packet.VfGate("m.recv", c, nil)
 			select {
 			case <-ctx.Done():
 				return
@@ -96,6 +104,7 @@ func MergeBufferDataChan(ctx context.Context, channels ...<-chan *packet.BufferD
 				if !ok {
 					return
 				}
+				packet.VfGate("m.send", c, e)
 				select {
 				case <-ctx.Done():
 					return
@@ -109,7 +118,9 @@ func MergeBufferDataChan(ctx context.Context, channels ...<-chan *packet.BufferD
 	}
 	go func() {
 		wg.Wait()
+		packet.VfGate("m.close", nil, nil)
 		close(out)
+		packet.VfGate("m.closed", nil, nil)
 	}()
 	return out
 }
